@@ -820,7 +820,7 @@ def tie_rich(rng, shape, kind, mult=1):
 TIE_KINDS = ("small", "relu", "const", "flat", "neg")
 
 
-def make_payload(rng, op, g, bias=True, form="tuple", data="ints", layout="C", dtypes=(None, "f64")):
+def make_payload(rng, op, g, bias=True, form="tuple", data="ints", layout="C", dtypes=(None, "f64"), zero_bias=False):
     """integer-valued inputs for op on geometry g (avg pools: multiples of the kernel size so that every mean is an integer is NOT
     needed: results are compared as exact rationals)"""
     np = _impl().np
@@ -832,11 +832,13 @@ def make_payload(rng, op, g, bias=True, form="tuple", data="ints", layout="C", d
     else:
         xs = (g["N"], g["C"], g["W"])
     if op in ("conv2d", "conv1d"):
-        Co = rng.choice((1, 2, 3))
+        Co = 1 if zero_bias else rng.choice((1, 2, 3))
         P["x"] = ints(rng, xs).tolist()
         ws = (Co, g["C"], g["kH"], g["kW"]) if is2d(op) else (Co, g["C"], g["k"])
         P["w"] = ints(rng, ws, -4, 4).tolist()
         P["b"] = ints(rng, (Co,), -20, 20).tolist() if bias else None
+        if zero_bias:
+            P["b"] = [0.0]          # one output channel whose bias is exactly zero: still an operand (it must receive its gradient)
     elif op == "fold":
         lH = out_size(g["H"], g["kH"], g["sH"], g["pH"], g["dH"]); lW = out_size(g["W"], g["kW"], g["sW"], g["pW"], g["dW"])
         P["y"] = ints(rng, (g["N"], g["C"] * g["kH"] * g["kW"], max(lH, 0) * max(lW, 0))).tolist()
